@@ -42,7 +42,7 @@ def run(ctx):
     d = os.path.join(ctx.work, "matrix")
     os.makedirs(d, exist_ok=True)
     n = 250 if ctx.quick else 5000
-    rc, out = core.sh([bins["e2e"], "matrix", str(ctx.seed + 62), str(n), d, "txs=2..10"], timeout=1500)
+    rc, out = core.sh([bins["e2e"], "matrix", str(ctx.seed + 62), str(n), d, "txs=2..10", "budget=1200"], timeout=2700)
     m = re.search(r"cases=(\d+) mismatches=(\d+).*paths=(\{.*\})", out)
     if not m:
         raise RuntimeError("matrix run failed: " + out[-2000:])
